@@ -153,7 +153,7 @@ inductive Ret
 
 inductive Frame
   /-- remaining operations of a script; `self` / closure weak of the enclosing callback -/
-  | script (ops : List Op) (self : Option Id) (wc : Option Id)
+  | script (ops : List Op) (self : Option Id) (wc : Option Id) (top : Bool := false)
   /-- `catch_unwind` around a top-level operation -/
   | catchTop
   /-- `Cc::drop` of a pointer to `x` -/
@@ -323,6 +323,11 @@ def initMeta (w : World) (x : Id) : World :=
 
 def getH (w : World) (k : Nat) : Option Id := (w.H.getD k none)
 def setH (w : World) (k : Nat) (v : Option Id) : World := { w with H := w.H.set k v }
+/-- `H[k] = Some(cc)`: an entry stored there meanwhile by a callback is dropped. -/
+def putH (w : World) (k : Nat) (x : Id) : World :=
+  match w.getH k with
+  | some old => (w.setH k (some x)).push (.dropCc old)
+  | none => w.setH k (some x)
 def getW (w : World) (k : Nat) : Option WRef := (w.W.getD k none)
 def setW (w : World) (k : Nat) (v : Option WRef) : World := { w with W := w.W.set k v }
 def getK (w : World) (k : Nat) : Option (Id × Nat × Nat) := (w.K.getD k none)
@@ -361,10 +366,11 @@ def newObj (c : Cfg) (w : World) (sp : NewSpec) : Obj :=
     wslots := List.replicate sp.nw none, hasCleaner := sp.cleaner && c.clean,
     fin := sp.fin, drp := sp.drp }
 
-/-- `Cc::clone` on a pointer to `x`; `none` = the count is at its maximum (panic). -/
-def ccClone (c : Cfg) (w : World) (x : Id) : Option World :=
-  if (w.heap x).rc ≥ c.rcMax then none
-  else some ((w.upd x fun o => { o with rc := o.rc + 1 }).removeFromList x)
+/-- `Cc::clone` on a pointer to `x` is possible (the count is below its maximum; otherwise it panics). -/
+def canClone (c : Cfg) (w : World) (x : Id) : Bool := decide ((w.heap x).rc < c.rcMax)
+/-- `Cc::clone` / a successful `Weak::upgrade`: one more pointer, and the object leaves the buffer. -/
+def cloneOk (w : World) (x : Id) : World :=
+  (w.upd x fun o => { o with rc := o.rc + 1 }).removeFromList x
 
 /-- `trigger_collection` decision (config.rs `should_collect`) -/
 def shouldCollect (c : Cfg) (w : World) : Bool :=
@@ -452,9 +458,8 @@ def execOp (c : Cfg) (w : World) (self wc : Option Id) (op : Op) : World :=
     match w.resolveC self r with
     | some x =>
       if (w.getH k).isSome ∨ k ≥ w.H.length then skip
-      else match w.ccClone c x with
-        | some w => { (w.setH k (some x)) with ret := .ok }
-        | none => w.raise
+      else if w.canClone c x then { ((w.cloneOk x).setH k (some x)) with ret := .ok }
+      else w.raise
     | none => skip
   | .drop k =>
     match w.getH k with
@@ -465,13 +470,12 @@ def execOp (c : Cfg) (w : World) (self wc : Option Id) (op : Op) : World :=
     | some t, some x =>
       match getSlot (w.heap t) s with
       | some old =>
-        match w.ccClone c x with
-        | some w =>
-          let w := { (w.upd t fun o => setSlot o s (some x)) with ret := .ok }
+        if w.canClone c x then
+          let w := { ((w.cloneOk x).upd t fun o => setSlot o s (some x)) with ret := .ok }
           match old with
           | some y => w.push (.dropCc y)
           | none => w
-        | none => w.raise
+        else w.raise
       | none => skip
     | _, _ => skip
   | .clrf n s =>
@@ -496,9 +500,8 @@ def execOp (c : Cfg) (w : World) (self wc : Option Id) (op : Op) : World :=
       match getSlot (w.heap t) s with
       | some (some y) =>
         if (w.getH k).isSome ∨ k ≥ w.H.length then skip
-        else match w.ccClone c y with
-          | some w => { (w.setH k (some y)) with ret := .ok }
-          | none => w.raise
+        else if w.canClone c y then { ((w.cloneOk y).setH k (some y)) with ret := .ok }
+        else w.raise
       | _ => skip
     | none => skip
   | .markAlive r =>
@@ -542,9 +545,8 @@ def execOp (c : Cfg) (w : World) (self wc : Option Id) (op : Op) : World :=
       else if w.weakStrong r = 0 then { w with ret := .none }
       else match r with
         | .to x =>
-          (match w.ccClone c x with
-           | some w => { (w.setH k (some x)) with ret := .some x }
-           | none => w.raise)
+          if w.canClone c x then { ((w.cloneOk x).setH k (some x)) with ret := .some x }
+          else w.raise
         | .dangling => { w with ret := .none }
     | none => skip
   | .wclone ws k =>
@@ -599,12 +601,14 @@ def execOp (c : Cfg) (w : World) (self wc : Option Id) (op : Op) : World :=
       else
         -- the closure (capturing a clone) is built before `register` is called
         let capId := cap.bind (w.resolveC self)
-        let wcap := match capId with
-          | some y => w.ccClone c y
-          | none => some w
-        match wcap with
-        | none => w.raise
-        | some w =>
+        let capOk : Bool := match capId with
+          | some y => w.canClone c y
+          | none => true
+        if !capOk then w.raise
+        else
+          let w := match capId with
+            | some y => w.cloneOk y
+            | none => w
           let w := { w with ret := .ok }
           match (w.heap t).cmap with
           | some _ => w.push (.regInsert t script k capId)
@@ -620,9 +624,9 @@ def execOp (c : Cfg) (w : World) (self wc : Option Id) (op : Op) : World :=
       let w := { w with ret := .ok }
       -- `self.cleaner_map.upgrade()`
       if w.weakStrong (.to m) = 0 then w
-      else match w.ccClone c m with
-        | none => w.raise
-        | some w =>
+      else if !w.canClone c m then w.raise
+      else
+          let w := w.cloneOk m
           if (w.heap m).borrowed then w.push (.cleanEnd m false false)
           else
             let w := w.upd m fun o => { o with borrowed := true }
@@ -662,6 +666,14 @@ def startDealloc (c : Cfg) (w : World) (N : List Id) : World :=
   let w' := { (w.push (.deallocDrop N N w.dropping)) with dropping := true }
   if c.weak then { w' with heap := N.foldl (fun h x => h.set x { h x with dropped := true }) w'.heap } else w'
 
+/-- `Cc::drop`, last owner, after the optional finalizer: the count goes to 0, the object leaves the
+buffer, `_dropping_guard`, the dropped flag, then `drop_in_place`. -/
+def destroyLast (c : Cfg) (w : World) (x : Id) : World :=
+  let w1 := (w.upd x fun o => { o with rc := o.rc - 1 }).removeFromList x
+  let w2 := { (w1.push (.afterDropValue x w1.dropping)) with dropping := true }
+  let w3 := if c.weak then w2.upd x fun o => { o with dropped := true } else w2
+  w3.push (.dropValue x)
+
 /-- Cleanup action of a frame popped by unwinding (`w` has the frame already popped).
 Returns the new world; cleanup-capable frames switch the machine back to `running`. -/
 def unwindFrame (c : Cfg) (w : World) (f : Frame) : World :=
@@ -693,6 +705,191 @@ def unwindFrame (c : Cfg) (w : World) (f : Frame) : World :=
     w.weakDrop (.to id)
   | _ => w
 
+/-- Execute frame `f`, already popped from the stack of `w` (running mode). -/
+def stepFrame (c : Cfg) (w : World) (f : Frame) : World :=
+  match f with
+  | .catchTop => w
+  | .setRet r => { w with ret := r }
+  | .script [] _ _ _ => w
+  | .script (op :: ops) self wc top =>
+    -- only a top-level operation reports its result
+    let w' := execOp c (w.push (.script ops self wc top)) self wc op
+    if top then w' else { w' with ret := w.ret }
+  | .dropCc x =>
+    let o := w.heap x
+    if o.mark = .inList ∨ o.mark = .inQueue then w.upd x fun o => { o with rc := o.rc - 1 }
+    else if o.rc = 1 then
+      if c.fin ∧ !o.finalized then
+        let w := (w.push (.dropCcAfterFin x w.finalizing))
+        let w := { w with finalizing := true }
+        let w := w.upd x fun o => { o with finalized := true }
+        w.push (.callFin x)
+      else destroyLast c w x
+    else (w.upd x fun o => { o with rc := o.rc - 1 }).addToList x
+  | .dropCcAfterFin x oldFin =>
+    if (w.heap x).rc ≠ 1 then
+      -- resurrected by its finalizer
+      { ((w.upd x fun o => { o with rc := o.rc - 1 }).addToList x) with finalizing := oldFin }
+    else destroyLast c { w with finalizing := oldFin } x
+  | .afterDropValue x oldDrop =>
+    let w := if c.weak then w.dropMetadata x else w
+    let w := w.freeBox x
+    { w with dropping := oldDrop }
+  | .dropValue x =>
+    let o := w.heap x
+    let w := w.upd x fun o => { o with valLive := false }
+    match o.kind with
+    | .node =>
+      let w := w.push (.dropFields x false)
+      let (boom, f) := tick w.fDrop
+      let w := { w with fDrop := f }
+      let w := w.emit (.drop x (w.isTracing c))
+      if boom then w.raiseLogged else w.push (.script (c.script o.drp) (some x) none)
+    | .map => w.push (.dropActions x 0 false)
+  | .dropMoved x =>
+    (w.emit (.moved x)).push (.dropFields x false)
+  | .dropFields x unw =>
+    match takeField (w.heap x) with
+    | (.cc y, o') => ((w.upd x fun _ => o').push (.dropFields x unw)).push (.dropCc y)
+    | (.weak y, o') => ((w.upd x fun _ => o').push (.dropFields x unw)).weakDrop (.to y)
+    | (.none, _) => if unw then { w with mode := .unwinding } else w
+  | .dropActions m i unw =>
+    let o := w.heap m
+    if i < o.aslots.length then
+      let w := w.push (.dropActions m (i + 1) unw)
+      match o.aslots.getD i none with
+      | some a =>
+        let w := w.upd m fun o => { o with aslots := o.aslots.set i none }
+        let w := w.push (.actionEnd a.cap false)
+        let (boom, f) := tick w.fAct
+        let w := { w with fAct := f }
+        let w := w.emit (.action a.aid (w.isTracing c))
+        if boom then w.raiseLogged else w.push (.script (c.script a.script) none none)
+      | none => w
+    else if unw then { w with mode := .unwinding } else w
+  | .actionEnd cap unw =>
+    match cap with
+    | some y => (w.push (.actionEnd none unw)).push (.dropCc y)
+    | none => if unw then { w with mode := .unwinding } else w
+  | .callFin x =>
+    match (w.heap x).kind with
+    | .map => w          -- `impl Finalize for CleanerMap {}`
+    | .node =>
+      let (boom, f) := tick w.fFin
+      let w := { w with fFin := f }
+      let w := w.emit (.finalize x (w.isTracing c))
+      if boom then w.raiseLogged else w.push (.script (c.script (w.heap x).fin) (some x) none)
+  | .collectLoop n oldFin oldDrop =>
+    let stop := if c.fin then n ≥ c.passCap ∨ w.pc.isEmpty else n ≥ 1 ∨ w.pc.isEmpty
+    if stop then { w with collecting := false, finalizing := oldFin, dropping := oldDrop }
+    else (w.push (.collectLoop (n + 1) oldFin oldDrop)).push .collectPass
+  | .collectPass =>
+    let user := fun i => decide ((w.heap i).kind = .node)
+    let (res, fault) := tracePhasesF user w.next (toT1 w) w.pc w.fTrace
+    let w := { w with fTrace := fault }
+    let tr := w.isTracing c
+    match res with
+    | .panicked h pcRest log =>
+      let w := { (fromT1 w h) with pc := pcRest }
+      let w := { w with events := w.events ++ log.map (fun x => Event.trace x tr) }
+      w.raiseLogged
+    | .done s =>
+      let w := { (fromT1 w s.ts.h) with pc := [] }
+      let w := { w with events := w.events ++ s.log.map (fun x => Event.trace x tr) }
+      let N := s.ts.nonroot
+      if N.isEmpty then w
+      else if c.fin then
+        ({ w with finalizing := true }).push (.finalizePass N N false w.finalizing)
+      else RustCc.startDealloc c w N
+  | .finalizePass N rest hasFin oldFin =>
+    match rest with
+    | x :: r =>
+      if !(w.heap x).finalized then
+        let w := w.push (.finalizePass N r true oldFin)
+        let w := w.upd x fun o => { o with finalized := true }
+        w.push (.callFin x)
+      else w.push (.finalizePass N r hasFin oldFin)
+    | [] =>
+      let w := { w with finalizing := oldFin }
+      if !hasFin then RustCc.startDealloc c w N
+      else
+        -- `swap_list` + `mark_self_and_append`: re-buffer the list in front of what was buffered meanwhile
+        let heap := N.foldl (fun h x => h.set x { h x with tc := 0, mark := .pc }) w.heap
+        { w with heap := heap, pc := N ++ w.pc }
+  | .deallocDrop N rest oldDrop =>
+    match rest with
+    | x :: r =>
+      let w := w.push (.deallocDrop N r oldDrop)
+      let w := if c.weak then w.upd x fun o => { o with dropped := true } else w
+      w.push (.dropValue x)
+    | [] =>
+      let w := N.foldl (fun w x => (if c.weak then w.dropMetadata x else w).freeBox x) w
+      { w with dropping := oldDrop }
+  | .adjustAfter =>
+    { w with thr := Policy.adjustF c.defaultThr (Policy.fuelFor w.allocBytes w.thr) w.allocBytes w.pctBits w.thr }
+  | .newAlloc k id sp =>
+    let o := newObj c w sp
+    let w := { w with heap := w.heap.set id o, allocBytes := w.allocBytes + o.size }
+    (w.emit (.alloc id o.size)).putH k id
+  | .newCyclicAlloc k id sp body selfw =>
+    -- box allocated with an uninitialised value, side record created, counts 0 strong / 1 weak
+    let o := { newObj c w sp with rc := 0, valLive := false, hasMeta := true }
+    let w := { w with heap := w.heap.set id o, allocBytes := w.allocBytes + o.size }
+    let w := w.emit (.alloc id o.size)
+    let w := w.updMeta id fun _ => { weak := 1, accessible := true, live := true }
+    let w := w.push (.newCyclicEnd k id sp selfw)
+    let (boom, f) := tick w.fBody
+    let w := { w with fBody := f }
+    if boom then w.raiseLogged else w.push (.script (c.script body) none (some id))
+  | .newCyclicEnd k id sp selfw =>
+    -- the closure builds the value (optionally storing a clone of its `Weak` in a weak field)
+    let store : Bool := match selfw with
+      | some i => decide (i < sp.nw)
+      | none => false
+    if store && decide ((w.metas id).weak ≥ c.weakMax) then
+      (w.push (.newCyclicEnd k id sp selfw)).raise
+    else
+      let w := if store then
+          (w.updMeta id fun m => { m with weak := m.weak + 1 }).upd id fun o =>
+            { o with wslots := o.wslots.set (selfw.getD 0) (some id) }
+        else w
+      let w := w.upd id fun o => { o with valLive := true, rc := 1 }
+      let w := w.weakDrop (.to id)
+      w.putH k id
+  | .mapAlloc owner =>
+    let id := w.next
+    let w := { w with next := id + 1 }
+    let o : Obj := { rc := 1, tc := c.tcInit, boxLive := true, valLive := true, kind := .map, size := c.mapSize,
+                     finalized := c.fin && w.finalizing }
+    let w := { w with heap := w.heap.set id o, allocBytes := w.allocBytes + o.size }
+    let w := w.emit (.alloc id o.size)
+    w.upd owner fun o => { o with cmap := some id }
+  | .regInsert owner script k cap =>
+    match (w.heap owner).cmap with
+    | none => { w with mode := .stuck }
+    | some m =>
+      if (w.heap m).borrowed then
+        -- `borrow_mut()` panics; the closure (and the captured pointer) is dropped by the unwinding
+        (w.push (.actionEnd cap false)).raise
+      else
+        let aid := w.nextAid
+        let w := { w with nextAid := aid + 1 }
+        let a : Action := { aid := aid, script := script, cap := cap }
+        let om := w.heap m
+        let (idx, om') := match om.afree with
+          | i :: fr => (i, { om with aslots := om.aslots.set i (some a), afree := fr })
+          | [] => (om.aslots.length, { om with aslots := om.aslots ++ [some a] })
+        let w := w.upd m fun _ => om'
+        -- `cc.downgrade()`
+        let w := w.initMeta m
+        if (w.metas m).weak ≥ c.weakMax then w.raise
+        else
+          let w := (w.updMeta m fun mm => { mm with weak := mm.weak + 1 }).removeFromList m
+          w.setK k (some (m, idx, aid))
+  | .cleanEnd m byUs unw =>
+    let w := if byUs then w.upd m fun o => { o with borrowed := false } else w
+    (w.push (.actionEnd none unw)).push (.dropCc m)
+
 /-- One micro-step. -/
 def step (c : Cfg) (w : World) : World :=
   match w.mode with
@@ -704,194 +901,7 @@ def step (c : Cfg) (w : World) : World :=
   | .running =>
     match w.stack with
     | [] => w
-    | f :: rest =>
-      let w := { w with stack := rest }
-      match f with
-      | .catchTop => w
-      | .setRet r => { w with ret := r }
-      | .script [] _ _ => w
-      | .script (op :: ops) self wc => execOp c (w.push (.script ops self wc)) self wc op
-      | .dropCc x =>
-        let o := w.heap x
-        if o.mark = .inList ∨ o.mark = .inQueue then w.upd x fun o => { o with rc := o.rc - 1 }
-        else if o.rc = 1 then
-          if c.fin ∧ !o.finalized then
-            let w := (w.push (.dropCcAfterFin x w.finalizing))
-            let w := { w with finalizing := true }
-            let w := w.upd x fun o => { o with finalized := true }
-            w.push (.callFin x)
-          else
-            w.push (.dropCcAfterFin x w.finalizing)   -- no finalizer: same continuation, flag unchanged
-        else (w.upd x fun o => { o with rc := o.rc - 1 }).addToList x
-      | .dropCcAfterFin x oldFin =>
-        if (w.heap x).rc ≠ 1 then
-          -- resurrected by its finalizer
-          { ((w.upd x fun o => { o with rc := o.rc - 1 }).addToList x) with finalizing := oldFin }
-        else
-          let w := { w with finalizing := oldFin }
-          let w := (w.upd x fun o => { o with rc := o.rc - 1 }).removeFromList x
-          let w := (w.push (.afterDropValue x w.dropping))
-          let w := { w with dropping := true }
-          let w := if c.weak then w.upd x fun o => { o with dropped := true } else w
-          w.push (.dropValue x)
-      | .afterDropValue x oldDrop =>
-        let w := if c.weak then w.dropMetadata x else w
-        let w := w.freeBox x
-        { w with dropping := oldDrop }
-      | .dropValue x =>
-        let o := w.heap x
-        let w := w.upd x fun o => { o with valLive := false }
-        match o.kind with
-        | .node =>
-          let w := w.push (.dropFields x false)
-          let (boom, f) := tick w.fDrop
-          let w := { w with fDrop := f }
-          let w := w.emit (.drop x (w.isTracing c))
-          if boom then w.raiseLogged else w.push (.script (c.script o.drp) (some x) none)
-        | .map => w.push (.dropActions x 0 false)
-      | .dropMoved x =>
-        (w.emit (.moved x)).push (.dropFields x false)
-      | .dropFields x unw =>
-        match takeField (w.heap x) with
-        | (.cc y, o') => ((w.upd x fun _ => o').push (.dropFields x unw)).push (.dropCc y)
-        | (.weak y, o') => ((w.upd x fun _ => o').push (.dropFields x unw)).weakDrop (.to y)
-        | (.none, _) => if unw then { w with mode := .unwinding } else w
-      | .dropActions m i unw =>
-        let o := w.heap m
-        if i < o.aslots.length then
-          let w := w.push (.dropActions m (i + 1) unw)
-          match o.aslots.getD i none with
-          | some a =>
-            let w := w.upd m fun o => { o with aslots := o.aslots.set i none }
-            let w := w.push (.actionEnd a.cap false)
-            let (boom, f) := tick w.fAct
-            let w := { w with fAct := f }
-            let w := w.emit (.action a.aid (w.isTracing c))
-            if boom then w.raiseLogged else w.push (.script (c.script a.script) none none)
-          | none => w
-        else if unw then { w with mode := .unwinding } else w
-      | .actionEnd cap unw =>
-        match cap with
-        | some y => (w.push (.actionEnd none unw)).push (.dropCc y)
-        | none => if unw then { w with mode := .unwinding } else w
-      | .callFin x =>
-        match (w.heap x).kind with
-        | .map => w          -- `impl Finalize for CleanerMap {}`
-        | .node =>
-          let (boom, f) := tick w.fFin
-          let w := { w with fFin := f }
-          let w := w.emit (.finalize x (w.isTracing c))
-          if boom then w.raiseLogged else w.push (.script (c.script (w.heap x).fin) (some x) none)
-      | .collectLoop n oldFin oldDrop =>
-        let stop := if c.fin then n ≥ c.passCap ∨ w.pc.isEmpty else n ≥ 1 ∨ w.pc.isEmpty
-        if stop then { w with collecting := false, finalizing := oldFin, dropping := oldDrop }
-        else (w.push (.collectLoop (n + 1) oldFin oldDrop)).push .collectPass
-      | .collectPass =>
-        let user := fun i => decide ((w.heap i).kind = .node)
-        let (res, fault) := tracePhasesF user w.next (toT1 w) w.pc w.fTrace
-        let w := { w with fTrace := fault }
-        let tr := w.isTracing c
-        match res with
-        | .panicked h pcRest log =>
-          let w := { (fromT1 w h) with pc := pcRest }
-          let w := { w with events := w.events ++ log.map (fun x => Event.trace x tr) }
-          w.raiseLogged
-        | .done s =>
-          let w := { (fromT1 w s.ts.h) with pc := [] }
-          let w := { w with events := w.events ++ s.log.map (fun x => Event.trace x tr) }
-          let N := s.ts.nonroot
-          if N.isEmpty then w
-          else if c.fin then
-            ({ w with finalizing := true }).push (.finalizePass N N false w.finalizing)
-          else RustCc.startDealloc c w N
-      | .finalizePass N rest hasFin oldFin =>
-        match rest with
-        | x :: r =>
-          if !(w.heap x).finalized then
-            let w := w.push (.finalizePass N r true oldFin)
-            let w := w.upd x fun o => { o with finalized := true }
-            w.push (.callFin x)
-          else w.push (.finalizePass N r hasFin oldFin)
-        | [] =>
-          let w := { w with finalizing := oldFin }
-          if !hasFin then RustCc.startDealloc c w N
-          else
-            -- `swap_list` + `mark_self_and_append`: re-buffer the list in front of what was buffered meanwhile
-            let heap := N.foldl (fun h x => h.set x { h x with tc := 0, mark := .pc }) w.heap
-            { w with heap := heap, pc := N ++ w.pc }
-      | .deallocDrop N rest oldDrop =>
-        match rest with
-        | x :: r =>
-          let w := w.push (.deallocDrop N r oldDrop)
-          let w := if c.weak then w.upd x fun o => { o with dropped := true } else w
-          w.push (.dropValue x)
-        | [] =>
-          let w := N.foldl (fun w x => (if c.weak then w.dropMetadata x else w).freeBox x) w
-          { w with dropping := oldDrop }
-      | .adjustAfter =>
-        { w with thr := Policy.adjustF c.defaultThr (Policy.fuelFor w.allocBytes w.thr) w.allocBytes w.pctBits w.thr }
-      | .newAlloc k id sp =>
-        let o := newObj c w sp
-        let w := { w with heap := w.heap.set id o, allocBytes := w.allocBytes + o.size }
-        (w.emit (.alloc id o.size)).setH k (some id)
-      | .newCyclicAlloc k id sp body selfw =>
-        -- box allocated with an uninitialised value, side record created, counts 0 strong / 1 weak
-        let o := { newObj c w sp with rc := 0, valLive := false, hasMeta := true }
-        let w := { w with heap := w.heap.set id o, allocBytes := w.allocBytes + o.size }
-        let w := w.emit (.alloc id o.size)
-        let w := w.updMeta id fun _ => { weak := 1, accessible := true, live := true }
-        let w := w.push (.newCyclicEnd k id sp selfw)
-        let (boom, f) := tick w.fBody
-        let w := { w with fBody := f }
-        if boom then w.raiseLogged else w.push (.script (c.script body) none (some id))
-      | .newCyclicEnd k id sp selfw =>
-        -- the closure builds the value (optionally storing a clone of its `Weak` in a weak field)
-        let store : Bool := match selfw with
-          | some i => decide (i < sp.nw)
-          | none => false
-        if store && decide ((w.metas id).weak ≥ c.weakMax) then
-          (w.push (.newCyclicEnd k id sp selfw)).raise
-        else
-          let w := if store then
-              (w.updMeta id fun m => { m with weak := m.weak + 1 }).upd id fun o =>
-                { o with wslots := o.wslots.set (selfw.getD 0) (some id) }
-            else w
-          let w := w.upd id fun o => { o with valLive := true, rc := 1 }
-          let w := w.weakDrop (.to id)
-          w.setH k (some id)
-      | .mapAlloc owner =>
-        let id := w.next
-        let w := { w with next := id + 1 }
-        let o : Obj := { rc := 1, tc := c.tcInit, boxLive := true, valLive := true, kind := .map, size := c.mapSize,
-                         finalized := c.fin && w.finalizing }
-        let w := { w with heap := w.heap.set id o, allocBytes := w.allocBytes + o.size }
-        let w := w.emit (.alloc id o.size)
-        w.upd owner fun o => { o with cmap := some id }
-      | .regInsert owner script k cap =>
-        match (w.heap owner).cmap with
-        | none => { w with mode := .stuck }
-        | some m =>
-          if (w.heap m).borrowed then
-            -- `borrow_mut()` panics; the closure (and the captured pointer) is dropped by the unwinding
-            (w.push (.actionEnd cap false)).raise
-          else
-            let aid := w.nextAid
-            let w := { w with nextAid := aid + 1 }
-            let a : Action := { aid := aid, script := script, cap := cap }
-            let om := w.heap m
-            let (idx, om') := match om.afree with
-              | i :: fr => (i, { om with aslots := om.aslots.set i (some a), afree := fr })
-              | [] => (om.aslots.length, { om with aslots := om.aslots ++ [some a] })
-            let w := w.upd m fun _ => om'
-            -- `cc.downgrade()`
-            let w := w.initMeta m
-            if (w.metas m).weak ≥ c.weakMax then w.raise
-            else
-              let w := (w.updMeta m fun mm => { mm with weak := mm.weak + 1 }).removeFromList m
-              w.setK k (some (m, idx, aid))
-      | .cleanEnd m byUs unw =>
-        let w := if byUs then w.upd m fun o => { o with borrowed := false } else w
-        (w.push (.actionEnd none unw)).push (.dropCc m)
+    | f :: rest => stepFrame c { w with stack := rest } f
 
 /-- Initial world with tables of the given sizes. -/
 def World.init (c : Cfg) (nH nW nK : Nat) : World :=
@@ -908,6 +918,6 @@ def run (c : Cfg) : Nat → World → World
 /-- Execute one top-level operation under `catch_unwind`. -/
 def execTop (c : Cfg) (fuel : Nat) (w : World) (op : Op) : World :=
   if w.mode = .aborted ∨ w.mode = .stuck then w
-  else run c fuel { w with stack := [.script [op] none none, .catchTop], events := [], ret := .ok }
+  else run c fuel { w with stack := [.script [op] none none true, .catchTop], events := [], ret := .ok }
 
 end RustCc
